@@ -36,6 +36,418 @@ def comb_spec(N, k):
     return exact, over
 
 
+# ---------------------------------------------------------------------------------------------
+# round 2: purity (arguments bitwise unchanged, outputs not aliased to inputs), call HISTORIES
+# (same container objects reused, grids replaced / edited in place between calls, results kept
+# and re-checked) and ARGUMENT FORMS (lists, tuples, small / unsigned / float32 dtypes, strided
+# views, F-order, mixed dtypes, NumPy-scalar parameters)
+
+
+def _snap(obj):
+    """bitwise snapshot of an argument: ndarray with the whole buffer it is a view of; list/tuple recursively"""
+    if isinstance(obj, np.ndarray):
+        base = obj
+        while isinstance(base.base, np.ndarray):
+            base = base.base
+        return ("nd", obj.dtype.str, obj.shape, obj.strides, obj.tobytes(), base.tobytes())
+    if isinstance(obj, (list, tuple)):
+        return (type(obj).__name__, tuple(_snap(e) for e in obj))
+    return ("v", type(obj).__name__, repr(obj))
+
+
+def _arrays_in(obj):
+    if isinstance(obj, np.ndarray):
+        yield obj
+    elif isinstance(obj, (list, tuple)):
+        for e in obj:
+            yield from _arrays_in(e)
+
+
+def _plain(obj):
+    """JSON-able rendering of an argument for replays"""
+    if isinstance(obj, np.ndarray):
+        return {"dtype": obj.dtype.str, "strides": list(obj.strides), "values": obj.tolist()}
+    if isinstance(obj, (list, tuple)):
+        return {"type": type(obj).__name__, "items": [_plain(e) for e in obj]}
+    if isinstance(obj, Fraction):
+        return str(obj)
+    if isinstance(obj, np.generic):
+        return {"scalar": type(obj).__name__, "value": obj.item()}
+    return obj
+
+
+def _pure(ctx, site, args, thunk, inplace_ok=()):
+    """run thunk(); every argument must be bitwise unchanged afterwards (except those listed in inplace_ok, for
+    routines documented to work in place) and an ndarray result must not share memory with an argument"""
+    before = [_snap(a) for a in args]
+    out = thunk()
+    for j, a in enumerate(args):
+        if j in inplace_ok:
+            continue
+        if _snap(a) != before[j]:
+            ctx.spec_fail(site + ":mutates-argument", "%s changed its argument #%d in place" % (site, j),
+                          {"site": site, "arg": j, "before": repr(before[j][:4]) if before[j][0] == "nd" else repr(before[j]),
+                           "after": _plain(a), "args": [_plain(t) for t in args]})
+    if isinstance(out, np.ndarray):
+        for j, a in enumerate(args):
+            if j in inplace_ok:
+                continue
+            for arr in _arrays_in(a):
+                if np.shares_memory(out, arr):
+                    ctx.spec_fail(site + ":aliases-argument", "%s returned an array sharing memory with argument #%d" % (site, j),
+                                  {"site": site, "arg": j, "args": [_plain(t) for t in args]})
+    ctx.count("pure-call:" + site)
+    return out
+
+
+def _colex_succ(a):
+    """the k-subset following `a` in combinatorial-number-system order (independent of the code's loop)"""
+    a = list(a)
+    k = len(a)
+    j = 0
+    while j < k - 1 and a[j] + 1 == a[j + 1]:
+        j += 1
+    return list(range(j)) + [a[j] + 1] + a[j + 1:]
+
+
+def _nearest_ok(grids, x, order, got):
+    """grids: lists of Fractions; is `got` the row number (in the enumeration of `cartesian`, same order) of a point at
+    minimum Euclidean distance from x?"""
+    if order == "C":
+        pts = list(itertools.product(*grids))
+    else:
+        pts = [tuple(reversed(t)) for t in itertools.product(*reversed(grids))]
+    d2 = [sum((p - xi) ** 2 for p, xi in zip(row, x)) for row in pts]
+    return 0 <= got < len(d2) and d2[got] == min(d2)
+
+
+_INT_FORMS = ["list", "tuple", "i1", "i2", "i4", "i8", "u1", "u2", "u4", "u8", "strided", "revstrided"]
+
+
+def _int_form(vals, form):
+    """the integer vector `vals` (small non-negative entries) in the given argument form"""
+    vals = [int(v) for v in vals]
+    if form == "list":
+        return list(vals)
+    if form == "tuple":
+        return tuple(vals)
+    if form == "strided":
+        big = np.full(2 * len(vals) + 1, 77, dtype=np.int64)
+        big[1::2] = vals
+        return big[1::2]
+    if form == "revstrided":
+        big = np.array(vals[::-1], dtype=np.int64)
+        return big[::-1]
+    return np.array(vals, dtype=np.dtype(form[0] + form[1]))
+
+
+def run_forms_histories(ctx, cases, gt, comb_jit, next_k_array, k_array_rank, k_array_rank_jit, Mm, Nn):
+    rng = ctx.rng
+
+    # ---- simplex_index on the rows of the grid itself: two passes, the grid must stay the grid -------------------
+    for m in range(1, Mm + 1):
+        for n in range(0, Nn + 1):
+            ref = compositions(m, n)
+            G = gt.simplex_grid(m, n)
+            G0 = G.tobytes()
+            bad = None
+            for pas in (1, 2):
+                for i in range(len(ref)):
+                    idx = int(gt.simplex_index(G[i], m, n))
+                    if idx != i and bad is None:
+                        bad = (pas, i, idx)
+            ctx.count("history:simplex-two-passes")
+            if bad is not None:
+                ctx.spec_fail("simplex_index_history", "simplex_index(G[%d],%d,%d)=%d on pass %d over the rows of G=simplex_grid(%d,%d)"
+                              % (bad[1], m, n, bad[2], bad[0], m, n), {"op": "sindex-history", "m": m, "n": n, "row": bad[1], "pass": bad[0], "got": bad[2]})
+            if G.tobytes() != G0 or [tuple(r) for r in G.tolist()] != ref:
+                ctx.spec_fail("simplex_index:mutates-argument", "after passing its rows to simplex_index, simplex_grid(%d,%d) no longer "
+                              "lists the compositions (first changed row: %s)" % (m, n, next((r for r, q in zip(G.tolist(), ref) if tuple(r) != q), None)),
+                              {"op": "sindex-history", "m": m, "n": n, "grid_after": G.tolist()})
+    # ---- simplex_index / num_compositions / simplex_grid: argument forms, each call twice on the same object -------
+    scal = [int, np.int64, np.int32, np.int16, np.uint8, np.intp]
+    for _ in range(ctx.n(250, 1500)):
+        m = rng.randint(1, Mm)
+        n = rng.randint(0, Nn)
+        ref = compositions(m, n)
+        i = rng.randrange(len(ref))
+        form = rng.choice(_INT_FORMS + ["gridrow-F"])
+        if form == "gridrow-F":
+            xarg = np.asfortranarray(gt.simplex_grid(m, n))[i]
+        else:
+            xarg = _int_form(ref[i], form)
+        st = rng.choice(scal)
+        mm, nn = st(m), st(n)
+        r1 = _pure(ctx, "simplex_index", [xarg], lambda: gt.simplex_index(xarg, mm, nn))
+        r2 = _pure(ctx, "simplex_index", [xarg], lambda: gt.simplex_index(xarg, mm, nn))
+        ctx.count("form:simplex_index:x=%s" % form)
+        ctx.count("form:scalar=%s" % st.__name__)
+        if int(r1) != i or int(r2) != i:
+            ctx.spec_fail("simplex_index_forms", "simplex_index(%s as %s, %s(%d), %s(%d)) = %s then %s, position %d"
+                          % (ref[i], form, st.__name__, m, st.__name__, n, r1, r2, i),
+                          {"op": "sindex", "x": list(ref[i]), "form": form, "scalar": st.__name__, "m": m, "n": n, "got": [int(r1), int(r2)]})
+        cases.append(Case("C16 sindex x=%s m=%d n=%d" % (ints(ref[i]), m, n), str(int(r1)), nontrivial=(m >= 2 and n >= 1), tag="sindex"))
+        L = int(gt.num_compositions(mm, nn))
+        Lj = int(gt.num_compositions_jit(mm, nn))
+        if L != len(ref) or Lj != len(ref):
+            ctx.spec_fail("num_compositions_forms", "num_compositions(%s(%d),%s(%d)) = %d / jit %d, true %d" % (st.__name__, m, st.__name__, n, L, Lj, len(ref)),
+                          {"op": "numcomp", "m": m, "n": n, "scalar": st.__name__})
+    for st in (np.int64, np.int32, np.uint8):
+        for (m, n) in [(1, 0), (3, 0), (2, 5), (4, 3), (5, 2)]:
+            G = gt.simplex_grid(st(m), st(n))
+            if [tuple(r) for r in G.tolist()] != compositions(m, n):
+                ctx.spec_fail("simplex_grid_forms", "simplex_grid(%s(%d),%s(%d)) is not the lexicographic list" % (st.__name__, m, st.__name__, n),
+                              {"op": "simplex", "m": m, "n": n, "scalar": st.__name__, "got": G.tolist()})
+            ctx.count("form:simplex_grid:scalar=%s" % st.__name__)
+    # ---- comb_jit with NumPy-scalar arguments --------------------------------------------------------------------
+    for _ in range(ctx.n(100, 500)):
+        N = rng.randint(0, 70)
+        k = rng.randint(0, N)
+        st = rng.choice([np.int64, np.int32, np.int16, np.int8, np.uint8, np.intp])
+        got = int(comb_jit(st(N), st(k)))
+        exact, zero_ok = comb_spec(N, k)
+        if not (got == exact or (got == 0 and zero_ok)) or got != int(comb_jit(N, k)):
+            ctx.spec_fail("comb_jit_forms", "comb_jit(%s(%d),%s(%d))=%d, exact %s" % (st.__name__, N, st.__name__, k, got, exact),
+                          {"op": "comb", "N": N, "k": k, "scalar": st.__name__, "got": got})
+        ctx.count("form:comb_jit:scalar=%s" % st.__name__)
+    # ---- k_array_rank[_jit]: forms, purity, twice on the same object ----------------------------------------------
+    for _ in range(ctx.n(200, 1200)):
+        k = rng.randint(1, 6)
+        a = sorted(rng.sample(range(0, 40), k))
+        ref = sum(math.comb(ai, i + 1) for i, ai in enumerate(a))
+        form = rng.choice(_INT_FORMS)
+        aarg = _int_form(a, form)
+        r1 = _pure(ctx, "k_array_rank", [aarg], lambda: k_array_rank(aarg))
+        r2 = _pure(ctx, "k_array_rank", [aarg], lambda: k_array_rank(aarg))
+        ctx.count("form:k_array_rank:a=%s" % form)
+        if int(r1) != ref or int(r2) != ref:
+            ctx.spec_fail("k_array_rank_forms", "k_array_rank(%s as %s) = %s then %s, rank %d" % (a, form, r1, r2, ref),
+                          {"op": "krank", "a": a, "form": form, "got": [int(r1), int(r2)]})
+        cases.append(Case("C16 krank a=%s" % ints(a), str(int(r1)), nontrivial=(k >= 2), tag="krank"))
+        jform = rng.choice(["i8", "i4", "i2", "strided"])
+        jarg = _int_form(a, jform)
+        j1 = _pure(ctx, "k_array_rank_jit", [jarg], lambda: k_array_rank_jit(jarg))
+        j2 = _pure(ctx, "k_array_rank_jit", [jarg], lambda: k_array_rank_jit(jarg))
+        ctx.count("form:k_array_rank_jit:a=%s" % jform)
+        if int(j1) != ref or int(j2) != ref:
+            ctx.spec_fail("k_array_rank_jit_forms", "k_array_rank_jit(%s as %s) = %s then %s, rank %d" % (a, jform, j1, j2, ref),
+                          {"op": "krankjit", "a": a, "form": jform, "got": [int(j1), int(j2)]})
+    # ---- next_k_array is DOCUMENTED to work in place and to return a view of `a` ------------------------------------
+    for _ in range(ctx.n(150, 1000)):
+        k = rng.randint(1, 6)
+        run_ = rng.randint(0, k)
+        start = rng.randint(0, 3)
+        a = list(range(start, start + run_)) + sorted(rng.sample(range(start + run_ + rng.randint(0, 1), start + run_ + 20), k - run_))
+        form = rng.choice(["i8", "i4", "i2", "strided"])
+        aarg = _int_form(a, form)
+        base = aarg
+        while isinstance(base.base, np.ndarray):
+            base = base.base
+        out = next_k_array(aarg)
+        want = _colex_succ(a)
+        ctx.count("form:next_k_array:a=%s" % form)
+        if not (isinstance(out, np.ndarray) and np.shares_memory(out, aarg)) or out.tolist() != want or aarg.tolist() != want:
+            ctx.spec_fail("next_k_array_inplace", "next_k_array(%s as %s): returned %s, `a` is now %s, successor is %s (must be updated in place "
+                          "and returned as a view)" % (a, form, np.asarray(out).tolist(), aarg.tolist(), want),
+                          {"op": "nextk", "a": a, "form": form, "got": np.asarray(out).tolist(), "a_after": aarg.tolist()})
+        if form == "strided" and (base[0::2] != 77).any():
+            ctx.spec_fail("next_k_array_inplace", "next_k_array wrote outside the strided view it was given", {"op": "nextk", "a": a, "base_after": base.tolist()})
+        cases.append(Case("C16 nextk a=%s" % ints(a), ints(aarg.tolist()), nontrivial=(k >= 2), tag="nextk"))
+    # a whole walk on ONE array object, states kept (copies) and re-checked at the end
+    for (n, k) in [(5, 2), (6, 3), (7, 4), (6, 6), (5, 1)]:
+        a = np.arange(k)
+        kept = []
+        while a[-1] < n:
+            kept.append(a.copy())
+            r = next_k_array(a)
+            if r is not a and not np.shares_memory(r, a):
+                ctx.spec_fail("next_k_array_inplace", "next_k_array did not return a view of its argument", {"op": "nextk", "n": n, "k": k})
+        ref = sorted(itertools.combinations(range(n), k), key=lambda c: tuple(reversed(c)))
+        if [tuple(int(t) for t in s_) for s_ in kept] != ref:
+            ctx.spec_fail("next_k_array_history", "in-place walk over %d-subsets of %d on one array object is not the colex enumeration" % (k, n),
+                          {"op": "nextk", "n": n, "k": k})
+        ctx.count("history:next_k_array-walk-one-object")
+
+    # ---- cartesian / mlinspace: forms, purity, same container re-used with edits in between ------------------------
+    def grid_form(vals, form):
+        if form == "lf":
+            return [float(v) for v in vals]
+        if form == "li":
+            return [int(v) for v in vals]
+        if form == "tf":
+            return tuple(float(v) for v in vals)
+        if form == "sv":                       # strided float64 view
+            big = np.full(2 * len(vals) + 1, 1e6)
+            big[1::2] = [float(v) for v in vals]
+            return big[1::2]
+        if form == "rv":                       # negative-stride int64 view
+            return np.array([int(v) for v in vals][::-1], dtype=np.int64)[::-1]
+        return np.array(vals, dtype={"f64": np.float64, "f32": np.float32, "i64": np.int64, "i32": np.int32, "i8": np.int8,
+                                     "u8": np.uint8}[form])
+
+    def exact(g):
+        return [Fraction(float(v)) for v in (g.tolist() if isinstance(g, np.ndarray) else g)]
+
+    cart_templates = [("f64", "f64"), ("i64", "i64", "i64"), ("li", "lf"), ("tf", "i64"), ("f32", "f32"), ("i32", "f64"),
+                      ("sv", "f64"), ("rv", "i64"), ("u8", "i8", "i64"), ("li",), ("f64", "i64", "f32", "li")]
+    for tpl in cart_templates:
+        for rep in range(ctx.n(2, 8)):
+            cont = rng.choice([list, tuple])
+            integral = all(f in ("i64", "i32", "i8", "u8", "li", "rv") for f in tpl)
+            def fresh(f):
+                ln = rng.randint(1, 4)
+                if f in ("i64", "i32", "i8", "u8", "li", "rv"):
+                    return grid_form(sorted(rng.sample(range(0, 40), ln)), f)
+                return grid_form([v / 4 for v in sorted(rng.sample(range(-16, 17), ln))], f)
+            nodes = cont(fresh(f) for f in tpl)
+            kept = []
+            for step in range(3):
+                order = rng.choice("CF")
+                got = _pure(ctx, "cartesian", [nodes], lambda: gt.cartesian(nodes, order=order))
+                ex = [exact(g) for g in nodes]
+                if order == "C":
+                    ref = [list(t) for t in itertools.product(*ex)]
+                else:
+                    ref = [list(reversed(t)) for t in itertools.product(*reversed(ex))]
+                gl = [[Fraction(float(v)) for v in row] for row in got.tolist()]
+                if gl != ref or got.shape != (len(ref), len(tpl)):
+                    ctx.spec_fail("cartesian_forms", "cartesian(%s as %s of %s, order=%s), call %d on the same container, is not the product grid"
+                                  % ([[str(v) for v in g] for g in ex], cont.__name__, list(tpl), order, step + 1),
+                                  {"op": "cartesian", "nodes": [[str(v) for v in g] for g in ex], "forms": list(tpl), "container": cont.__name__,
+                                   "order": order, "call": step + 1, "got": got.tolist()})
+                if integral and step == 0:
+                    cases.append(Case("C16 cartesian nodes=%s order=%s" % (intm([[int(v) for v in g] for g in ex]), order),
+                                      intm([[int(v) for v in row] for row in got.tolist()]), nontrivial=(len(tpl) >= 2), tag="cartesian"))
+                kept.append((got, got.tobytes()))
+                ctx.count("history:cartesian-call-%d" % (step + 1))
+                # between calls: replace a grid (list container) or edit one in place
+                j = rng.randrange(len(tpl))
+                if cont is list and rng.random() < 0.5:
+                    nodes[j] = fresh(tpl[j]); ctx.count("history:cartesian-replace-grid")
+                elif isinstance(nodes[j], np.ndarray):
+                    nodes[j][...] = nodes[j] + (3 if nodes[j].dtype.kind in "iu" else 2.5); ctx.count("history:cartesian-edit-array-in-place")
+                elif isinstance(nodes[j], list):
+                    for t in range(len(nodes[j])):
+                        nodes[j][t] = nodes[j][t] + 3
+                    ctx.count("history:cartesian-edit-list-in-place")
+            for (arr, bts) in kept:
+                if arr.tobytes() != bts:
+                    ctx.spec_fail("cartesian:result-overwritten", "an array returned by cartesian changed during later calls",
+                                  {"op": "cartesian", "forms": list(tpl)})
+    for _ in range(ctx.n(20, 100)):
+        d = rng.randint(1, 3)
+        lo = [rng.randint(-4, 4) for _ in range(d)]
+        hi = [l_ + rng.randint(0, 6) for l_ in lo]
+        nums = [rng.randint(1, 4) for _ in range(d)]
+        kind = rng.choice(["list", "tuple", "array", "mixed"])
+        A = {"list": lo, "tuple": tuple(lo), "array": np.array(lo, dtype=np.int32), "mixed": np.array(lo, dtype=np.float32)}[kind]
+        B = {"list": hi, "tuple": tuple(hi), "array": np.array(hi, dtype=np.int64), "mixed": hi}[kind]
+        Nu = {"list": nums, "tuple": tuple(nums), "array": np.array(nums, dtype=np.int16), "mixed": np.array(nums, dtype=np.uint8)}[kind]
+        order = rng.choice("CF")
+        got = _pure(ctx, "mlinspace", [A, B, Nu], lambda: gt.mlinspace(A, B, Nu, order=order))
+        lin = [np.linspace(float(lo[i]), float(hi[i]), nums[i]).tolist() for i in range(d)]
+        ref = [list(t) for t in itertools.product(*lin)] if order == "C" else [list(reversed(t)) for t in itertools.product(*reversed(lin))]
+        if got.shape != (len(ref), d) or got.tolist() != ref:
+            ctx.spec_fail("mlinspace_forms", "mlinspace(%s,%s,%s as %s,%s) is not the product of the linspaces" % (lo, hi, nums, kind, order),
+                          {"op": "mlinspace", "a": lo, "b": hi, "nums": nums, "order": order, "form": kind})
+        ctx.count("form:mlinspace:%s" % kind)
+
+    # ---- cartesian_nearest_index: HISTORIES on one `nodes` container + argument forms ------------------------------
+    # (template = grid forms per dimension, container, form of x; a fixed menu keeps the number of jitted signatures small)
+    near_templates = [
+        (("f64", "f64"), list, "f64"), (("lf", "f64"), list, "list"), (("i64", "f64"), tuple, "f64"), (("li", "i64"), list, "ilist"),
+        (("f32", "f32", "f32"), tuple, "f32"), (("sv", "f64"), list, "tuple"), (("u8", "f64"), list, "2dF"), (("f64",), list, "f64"),
+        (("lf", "lf"), list, "2dlist"), (("i32", "lf"), list, "f64"), (("rv", "i64"), tuple, "iarr"),
+    ]
+    INTF = ("i64", "i32", "i8", "u8", "li", "rv")
+    for (tpl, cont, xform) in near_templates:
+        for rep in range(ctx.n(4, 20)):
+            allint = all(f in INTF for f in tpl)
+            def fresh(f):
+                ln = rng.randint(1, 5)
+                if f in INTF:
+                    return grid_form(sorted(rng.sample(range(0, 40), ln)), f)
+                return grid_form([v / 4 for v in sorted(rng.sample(range(-16, 17), ln))], f)
+            nodes = cont(fresh(f) for f in tpl)
+            keptb = []
+            for step in range(4):
+                ex = [exact(g) for g in nodes]
+                intx = xform in ("ilist", "iarr")
+                def query(g):
+                    kind = rng.randrange(5)
+                    if kind == 0:
+                        return rng.choice(g)
+                    if kind == 1 and len(g) >= 2 and not intx:
+                        t = rng.randrange(len(g) - 1)
+                        return (g[t] + g[t + 1]) / 2
+                    if kind == 2:
+                        return g[0] - (rng.randint(0, 3) if intx else Fraction(rng.randint(0, 8), 8))
+                    if kind == 3:
+                        return g[-1] + (rng.randint(0, 3) if intx else Fraction(rng.randint(0, 8), 8))
+                    lo_, hi_ = g[0], g[-1]
+                    if intx:
+                        return Fraction(rng.randint(int(lo_) - 2, int(hi_) + 2))
+                    return lo_ + Fraction(rng.randint(-8, int((hi_ - lo_) * 8) + 8), 8)
+                npts = 2 if xform in ("2dF", "2dlist") else 1
+                xs = [[query(g) for g in ex] for _p in range(npts)]
+                if xform == "f64":
+                    xarg = np.array([float(v) for v in xs[0]])
+                elif xform == "f32":
+                    xarg = np.array([float(v) for v in xs[0]], dtype=np.float32)
+                elif xform == "list":
+                    xarg = [float(v) for v in xs[0]]
+                elif xform == "tuple":
+                    xarg = tuple(float(v) for v in xs[0])
+                elif xform == "ilist":
+                    xarg = [int(v) for v in xs[0]]
+                elif xform == "iarr":
+                    xarg = np.array([int(v) for v in xs[0]], dtype=np.int32)
+                elif xform == "2dF":
+                    xarg = np.asfortranarray(np.array([[float(v) for v in row] for row in xs]))
+                else:
+                    xarg = [[float(v) for v in row] for row in xs]
+                order = rng.choice("CF")
+                got = _pure(ctx, "cartesian_nearest_index", [xarg, nodes], lambda: gt.cartesian_nearest_index(xarg, nodes, order=order))
+                gots = [int(t) for t in np.atleast_1d(got)]
+                ctx.count("history:nearest-call-%d" % (step + 1))
+                ctx.count("form:nearest:x=%s" % xform)
+                for row, gi in zip(xs, gots):
+                    if not _nearest_ok(ex, row, order, gi):
+                        ctx.spec_fail("cartesian_nearest_index_history",
+                                      "call %d with the same `nodes` %s (grid forms %s, x as %s): index %d is not a nearest point of the CURRENT grids %s for x=%s, order=%s"
+                                      % (step + 1, cont.__name__, list(tpl), xform, gi, [[str(v) for v in g] for g in ex], [str(v) for v in row], order),
+                                      {"op": "nearest-history", "call": step + 1, "container": cont.__name__, "forms": list(tpl), "xform": xform,
+                                       "nodes": [[str(v) for v in g] for g in ex], "x": [str(v) for v in row], "order": order, "got": gi})
+                    cases.append(Case("C16 nearest nodes=%s x=%s order=%s" % (ratm(ex), rats(row), order), str(gi),
+                                      nontrivial=(max(len(g) for g in ex) >= 2), tag="nearest"))
+                if isinstance(got, np.ndarray):
+                    keptb.append((got, got.tobytes()))
+                # between calls: nothing / replace a grid (list container) / edit a grid in place
+                act = rng.randrange(4)
+                j = rng.randrange(len(tpl))
+                if act == 0:
+                    ctx.count("history:nearest-same-grids")
+                elif act == 1 and cont is list:
+                    nodes[j] = fresh(tpl[j]); ctx.count("history:nearest-replace-grid")
+                elif isinstance(nodes[j], np.ndarray):
+                    sh = rng.choice([3, 5, 7])
+                    if nodes[j].dtype == np.uint8 or nodes[j].dtype == np.int8:
+                        sh = 3
+                    nodes[j][...] = nodes[j] + sh
+                    ctx.count("history:nearest-edit-array-in-place:" + tpl[j])
+                elif isinstance(nodes[j], list):
+                    sh = rng.choice([3, 5, 7])
+                    for t in range(len(nodes[j])):
+                        nodes[j][t] = nodes[j][t] + sh
+                    ctx.count("history:nearest-edit-list-in-place")
+                else:
+                    ctx.count("history:nearest-same-grids")
+            for (arr, bts) in keptb:
+                if arr.tobytes() != bts:
+                    ctx.spec_fail("cartesian_nearest_index:result-overwritten", "an index array returned earlier changed during later calls",
+                                  {"op": "nearest-history", "forms": list(tpl)})
+
+
 def run(ctx):
     from quantecon.util.numba import comb_jit
     from quantecon.util.combinatorics import next_k_array, k_array_rank, k_array_rank_jit
@@ -44,7 +456,10 @@ def run(ctx):
     cases = []
     ctx.rule = ("exhaustive small scopes (comb_jit N<=Nmax all k; simplex m<=M,n<=Nn; subsets n<=10; products of <=4 "
                 "grids) + selected huge N; a case is non-trivial when the answer is not forced by an early-exit guard "
-                "(k in {0,1,N-1,N}, m=1, k=1, single-point grids); distinct by request line")
+                "(k in {0,1,N-1,N}, m=1, k=1, single-point grids); distinct by request line. Round 2: every call is also checked "
+                "for purity (arguments bitwise unchanged, results not aliased), in histories on re-used containers (grids "
+                "replaced / edited in place between calls, two passes over the rows of simplex_grid) and over argument forms "
+                "(lists, tuples, int8..uint64, float32, strided views, F-order, NumPy-scalar parameters)")
 
     # ---- comb_jit ------------------------------------------------------------
     Nmax = ctx.n(70, 70)      # the property's whole stated scope, in both tiers
@@ -318,6 +733,8 @@ def run(ctx):
                           {"op": "nearest", "nodes": [[str(v) for v in g] for g in nodes], "x": [str(v) for v in x], "order": order})
         cases.append(Case("C16 nearest nodes=%s x=%s order=%s" % (ratm(nodes), rats(x), order), str(got),
                           nontrivial=(max(len(g) for g in nodes) >= 2), tag="nearest"))
+
+    run_forms_histories(ctx, cases, gt, comb_jit, next_k_array, k_array_rank, k_array_rank_jit, Mm, Nn)
 
     ctx.exhaustive = True
     ctx.extra["exhaustive_scope"] = ("comb_jit N<=%d all k in [-1,N+1]; simplex m<=%d n<=%d with every point's index; "
